@@ -132,4 +132,55 @@ def sRun (depth : Nat) (order : List Nat) (s : SState) : List SIn → SState × 
     let (s'', os) := sRun depth order s' is
     (s'', o :: os)
 
+/-! ## two callers per method
+Every method of the two components is exclusive: when two transactions request the same method in
+one cycle the eager scheduler grants at most one of them - the one that comes first in the
+priority order - and only if the method can run.  The models below put this arbitration in front
+of `zStep` / `sStep`: the component sees the union of the callers' requests. -/
+
+/-- two callers of one exclusive method: merged request and the caller (1 or 2) it comes from;
+    `bFirst` = the second caller precedes the first in the priority order -/
+def arb2 {α} (bFirst : Bool) (a b : Option α) : Option α × Nat :=
+  if bFirst then (match b with | some x => (some x, 2) | none => (a, 1))
+  else (match a with | some x => (some x, 1) | none => (b, 2))
+
+def boolOpt (b : Bool) : Option Unit := if b then some () else none
+
+/-- which caller (0 = none, 1, 2) executed write_args / write_results / read -/
+structure ZWho where
+  wa : Nat
+  wr : Nat
+  rd : Nat
+deriving Repr, DecidableEq
+
+/-- zipper with two callers on write_args, write_results and read (`pr` = second caller first, per
+    method); peek_arg is nonexclusive and keeps one caller -/
+def zStepTwin (pr : Bool × Bool × Bool) (s : ZState) (a b : ZIn) : ZState × ZOut × ZWho :=
+  let wa := arb2 pr.1 a.wa b.wa
+  let wr := arb2 pr.2.1 a.wr b.wr
+  let rd := arb2 pr.2.2 (boolOpt a.rd) (boolOpt b.rd)
+  let r := zStep s { wa := wa.1, wr := wr.1, rd := rd.1.isSome, pk := a.pk }
+  (r.1, r.2, { wa := if r.2.wa.isSome then wa.2 else 0, wr := if r.2.wr.isSome then wr.2 else 0,
+               rd := if r.2.rd.isSome then rd.2 else 0 })
+
+/-- first slot of `oorder` that belongs to `port` (slot `k` calls port `k % n`) and attempts -/
+def firstSlot (outs : List Bool) (port n : Nat) : List Nat → Option Nat
+  | [] => none
+  | k :: rest => if k % n == port && outs[k]? == some true then some k else firstSlot outs port n rest
+
+/-- Serializer whose every `serialize_in[p]` / `serialize_out[p]` has several callers: `ins` / `outs`
+    are indexed by *slot*, slot `k` calls port `k % n`; `order` / `oorder` = priority order of the
+    request / response slots.  Returns also the granted request slot and response slot. -/
+def sStepTwin (n depth : Nat) (order oorder : List Nat) (s : SState) (i : SIn) :
+    SState × SOut × Option Nat × Option Nat :=
+  let w := pickIn i.ins order
+  let insP : List (Option Nat) := (List.range n).map fun p =>
+    match w with
+    | some (sl, a) => if sl % n = p then some a else none
+    | none => none
+  let outsP : List Bool := (List.range n).map fun p => (firstSlot i.outs p n oorder).isSome
+  let r := sStep depth (List.range n) s { i with ins := insP, outs := outsP }
+  (r.1, r.2, if r.2.inDone.isSome then w.map (·.1) else none,
+    r.2.outDone.bind fun pd => firstSlot i.outs pd.1 n oorder)
+
 end TxV.ReqRes
